@@ -12,7 +12,7 @@ import vlib, fam
 
 CLAUSES = ["LocalUnaffected", "OthersUnaffected", "NoHang", "QueueNotStuck", "AllocBounded", "DecoderNoPanic", "ReencodeStable"]
 FRAMES = ["pid", "name", "alias", "call", "callname", "exit", "any", "z"]
-VALUES = ["int", "string", "binary", "atom", "float", "pid", "ref", "alias", "slice", "slice2", "map", "mapany", "anys", "struct", "named", "namedmap", "namedarr", "anynamed", "error", "time", "array", "array2", "array3", "nested", "bool"]
+VALUES = ["int", "string", "binary", "atom", "float", "pid", "ref", "alias", "slice", "slice2", "map", "mapany", "anys", "struct", "named", "namedmap", "namedarr", "anynamed", "zeroarr", "error", "time", "array", "array2", "array3", "nested", "bool"]
 TYPES = [0, 1, 100, 101, 102, 103, 104, 105, 106, 107, 121, 122, 123, 124, 129, 130, 181, 182, 183, 184, 185, 186, 199, 200, 201, 202, 203, 250, 255]
 
 FRAME_CFGS = [  # (name, Lens, Decl, MaxMsg, Fix, invariant expected to be violated or None)
@@ -79,6 +79,8 @@ def cases(tier, rng):
             E(v, "trunc", pos)
             E(v, "setff", pos, 0); E(v, "setff", pos, 1)
             E(v, "set00", pos)
+            if pos < 16:
+                E(v, "ffapp", pos, 1)
             if v in ("array2", "array3", "slice2", "nested"):
                 for d in (1, 2, 3, 4, 5, 6, 7, 8):
                     E(v, "setff2", pos, d)
